@@ -917,8 +917,15 @@ fn fault_run(rng: &mut Rng, out: &mut Out, rec: &Arc<Recorder>, dir: &str, idx: 
         let poisoned = matches!(r, Err(FeoxError::IndeterminateWrite(_)));
         rec.push(Ev::FlushEnd { ok: r.is_ok(), snap: snap.clone() });
         flushes.push((r.is_ok() || poisoned, snap));
-        if !(r.is_ok() || poisoned) {
-            flushes.push((false, vec![(b"!retry-failed".to_vec(), 0)]));
+        // a device that is simply full is not an I/O failure - provided the failure handling leaked
+        // nothing (free + used = the whole data area)
+        let full_not_leaked = matches!(r, Err(FeoxError::OutOfSpace)) && {
+            let free: u64 = store.verif_free_runs().iter().map(|x| x.1).sum();
+            free * BS as u64 + store.verif_disk_usage() == (blocks - 16) * BS as u64
+        };
+        if !(r.is_ok() || poisoned || full_not_leaked) {
+            let why = match &r { Err(e) => err_name(e), Ok(()) => "ok" };
+            flushes.push((false, vec![(format!("!retry-failed {} free={:?} usage={}", why, store.verif_free_runs(), store.verif_disk_usage()).into_bytes(), 0)]));
         }
         // second phase on the healthy device: more writes must not disturb what was acknowledged
         if r.is_ok() {
@@ -992,8 +999,8 @@ fn fault_run(rng: &mut Rng, out: &mut Out, rec: &Arc<Recorder>, dir: &str, idx: 
         if !reads_ok {
             out.fail("C09", format!("fault plan {}: a read did not return the latest accepted value from memory", pname), "-");
         }
-        if flushes.iter().any(|(_, s)| s.first().is_some_and(|x| x.0 == b"!retry-failed")) {
-            out.fail("C09", format!("fault plan {}: after the device works again flush() still fails (and not as an indeterminate write)", pname), "-");
+        if let Some((_, sn)) = flushes.iter().find(|(_, s)| s.first().is_some_and(|x| x.0.starts_with(b"!retry-failed"))) {
+            out.fail("C09", format!("fault plan {}: after the device works again flush() still fails (and not as an indeterminate write): {} (device {} blocks)", pname, String::from_utf8_lossy(&sn[0].0), w.blocks), "-");
         }
         // flush()==Ok only if durable: the image at each FlushEnd{ok} (durable part only) must hold the window;
         // and at *every* point the last durable generation must still be recoverable
